@@ -71,10 +71,21 @@ def judge(rec, before, after, recording, command, params, label):
             rec.violation(f"{label}:parameter-missing:{k}", f"{command}: parameter {k}={v!r} not in the record {sorted(pr)}")
             continue
         want = v
-        if isinstance(v, PopulationSizeHistory):
-            want = v.as_dict()
-        elif isinstance(v, dict) and "population_size" in v:
-            want = PopulationSizeHistory(**v).as_dict()
+        if isinstance(v, PopulationSizeHistory) or (isinstance(v, dict) and "population_size" in v):
+            # judged by meaning, not through tsdate's own serialiser: the recorded value must rebuild
+            # the history that was used (same epoch sizes, same time breaks)
+            h_in = v if isinstance(v, PopulationSizeHistory) else PopulationSizeHistory(**v)
+            try:
+                h_rec = PopulationSizeHistory(**pr[k]) if isinstance(pr[k], dict) else None
+            except Exception:
+                h_rec = None
+            rec.count("population_histories_compared")
+            if h_rec is None or not (np.array_equal(h_in.time_breaks, h_rec.time_breaks)
+                                     and np.array_equal(h_in.population_size, h_rec.population_size)):
+                rec.violation(f"{label}:parameter-value:{k}",
+                              f"{command}: population_size recorded as {pr[k]!r} does not describe the history used "
+                              f"(sizes {(h_in.population_size / 2).tolist()}, breaks {h_in.time_breaks[1:].tolist()})")
+            continue
         want = json.loads(json.dumps(want, default=lambda o: o.tolist() if hasattr(o, "tolist") else float(o)))
         if pr[k] != want:
             rec.violation(f"{label}:parameter-value:{k}", f"{command}: {k} recorded as {pr[k]!r}, passed {want!r}")
@@ -137,8 +148,11 @@ def one_call(rec, ts, rng, r, step):
     else:
         Ne = r.get("Ne", 100.0)
         form = int(rng.integers(4))
-        ps = [Ne, int(max(1, round(Ne))), PopulationSizeHistory([Ne, 2 * Ne], [10.0]),
-              {"population_size": [Ne, Ne / 2], "time_breaks": [25.0]}][form]
+        ps = [Ne, int(max(1, round(Ne))),
+              [PopulationSizeHistory([Ne, 2 * Ne], [10.0]), PopulationSizeHistory([Ne]),
+               PopulationSizeHistory([Ne, 2 * Ne, Ne / 3], [10.0, 40.0])][int(rng.integers(3))],
+              [{"population_size": [Ne, Ne / 2], "time_breaks": [25.0]}, {"population_size": [Ne]},
+               {"population_size": [Ne, Ne / 2, 3 * Ne, Ne], "time_breaks": [5.0, 25.0, 300.0]}][int(rng.integers(3))]][form]
         kw["population_size"] = params["population_size"] = ps
         if rng.random() < 0.5:
             kw["eps"] = params["eps"] = float(rng.choice([1e-6, 1e-3]))
